@@ -18,6 +18,7 @@ func init() {
 }
 
 func runC11(c *Ctx, r *Run) {
+	checkSinkAccumulates(c, r, "SINK-1")
 	checkResultsUsed(c, r, "USE-1", 100)
 	r.Rule("DEP-N1", "FROST nonces: D_i and E_i depend on the secret share, the session hash, the message and fresh randomness")
 	r.Rule("DEP-N2", "BIP-340 nonce: depends on secret key, message, public key and aux (reader or atomic counter)")
